@@ -177,6 +177,7 @@ Definition aexec (a : astate) (o : sop) : astate * sout :=
   | PRollback ver =>
     match a_stack a with
     | [_] => if (ver =? 0) || (a_ver a <? ver) then (a, OErr)
+             else if ver =? a_ver a then (a, OUnit)               (* rollback to the current version: nothing happens *)
              else (mkA (firstn (S (N.to_nat ver)) (a_hist a)) [[]], OUnit)
     | _ => (a, OErr)
     end
